@@ -41,6 +41,9 @@ def fMol2 : Str := ['m','o','l','2']
 def fPdb : Str := ['p','d','b']
 def fCube : Str := ['c','u','b','e']
 def fGro : Str := ['g','r','o','m','a','c','s']
+def fPoscar : Str := ['p','o','s','c','a','r']
+def fChgcar : Str := ['c','h','g','c','a','r']
+def fLocpot : Str := ['l','o','c','p','o','t']
 def eLoadOne : Str := ['l','o','a','d','_','o','n','e']
 def eLoadMany : Str := ['l','o','a','d','_','m','a','n','y']
 
@@ -51,22 +54,24 @@ def mol2B : List Str := [kAtcoords, kAtnums, kAtcharges, kAtffparams, kTitle]
 def pdbB : List Str := [kAtcoords, kAtnums, kAtffparams, kExtra, kTitle]
 def cubeB : List Str := [kAtcoords, kAtnums, kAtcorenums, kCellvecs, kCube, kTitle]
 def groB : List Str := [kAtcoords, kAtffparams, kCellvecs, kExtra, kTitle]
+def poscarB : List Str := [kAtcoords, kAtnums, kCellvecs, kTitle]
+def vaspGridB : List Str := [kAtcoords, kAtnums, kCellvecs, kCube, kTitle]
 
-/-- (format, keys of every returned object, keys of some returned objects only) of the six reader models;
+/-- (format, keys of every returned object, keys of some returned objects only) of the reader models;
 `Props/C17Readers` proves each row about the model and compares the table with the one extracted from the source -/
 def modelKeys : List (Str × List Str × List Str) :=
   [(fXyz, xyzB, []), (fSdf, sdfB, []), (fMol2, mol2B, [kBonds]), (fPdb, pdbB, [kBonds]), (fCube, cubeB, []),
-   (fGro, groB, [])]
+   (fGro, groB, []), (fPoscar, poscarB, []), (fChgcar, vaspGridB, []), (fLocpot, vaspGridB, [])]
 
 /-- same members -/
 def sameSet (a b : List Str) : Bool := a.all (b.contains ·) && b.all (a.contains ·)
 
-/-- every guaranteed name of the six modules' `load_one`/`load_many`, with the module and entry point -/
+/-- every guaranteed name of the modelled modules' `load_one`/`load_many`, with the module and entry point -/
 def guaranteedNames (decl : List Iodata.Select.Declared) : List (Str × Str × Str) :=
   (decl.filter fun d => (modelKeys.map (·.1)).contains d.module && [eLoadOne, eLoadMany].contains d.entry).flatMap
     fun d => d.guaranteed.map fun a => (d.module, d.entry, a)
 
-/-- guaranteed names (of the six modules) that the model's result object does not represent -/
+/-- guaranteed names (of the modelled modules) that the model's result object does not represent -/
 def uncovered (decl : List Iodata.Select.Declared) : List (Str × Str × Str) :=
   (guaranteedNames decl).filter fun t => (accessor? t.2.2).isNone
 
@@ -256,6 +261,32 @@ theorem gro_form (ls : List Str) (o : RObj) (h : (Gro.read ls).res = .ok o) :
   obtain ⟨ho, -⟩ := pure_ok hm
   exact ⟨natoms.toNat, ho.symm⟩
 
+theorem poscar_form (T : Tables) (ls : List Str) (o : RObj) (h : (Vasp.readPoscar T ls).res = .ok o) :
+    ∃ (s : List Nat) (n k : Nat), o = { atcoords := some s, atnums := some [n], cellvecs := some [3, k], hasTitle := true } := by
+  unfold Vasp.readPoscar run at h
+  rcases hm : Vasp.loadPoscar T ⟨ls, 0⟩ with ⟨r, l'⟩
+  rw [hm] at h
+  simp only at h
+  subst h
+  unfold Vasp.loadPoscar at hm
+  obtain ⟨hd, _, -, hm⟩ := bind_ok hm
+  obtain ⟨ho, -⟩ := pure_ok hm
+  exact ⟨hd.coordShape, hd.natom, hd.cellK, ho.symm⟩
+
+/-- CHGCAR and LOCPOT (`_load_vasp_grid`) -/
+theorem vasp_grid_form (T : Tables) (ls : List Str) (o : RObj) (h : (run (Vasp.loadGrid T) ls).res = .ok o) :
+    ∃ (s c : List Nat) (n k : Nat), o = { atcoords := some s, atnums := some [n], cellvecs := some [3, k], cube := some c, hasTitle := true } := by
+  unfold run at h
+  rcases hm : Vasp.loadGrid T ⟨ls, 0⟩ with ⟨r, l'⟩
+  rw [hm] at h
+  simp only at h
+  subst h
+  unfold Vasp.loadGrid at hm
+  obtain ⟨hd, _, -, hm⟩ := bind_ok hm
+  obtain ⟨g, _, -, hm⟩ := bind_ok hm
+  obtain ⟨ho, -⟩ := pure_ok hm
+  exact ⟨hd.coordShape, g.1, hd.natom, hd.cellK, ho.symm⟩
+
 
 /-! ### witness files (non-vacuity examples of `Props/C17Readers`) -/
 
@@ -337,5 +368,34 @@ def groSol : List Str :=
    [' ',' ',' ',' ','1','S','O','L',' ',' ',' ',' ',' ','O','W',' ',' ',' ',' ','1',' ',' ',' ','1','.','0','0','0','0',' ',' ',' ','2','.','0','0','0','0',' ',' ',' ','3','.','0','0','0','0','\n'],
    [' ',' ',' ',' ','1','S','O','L',' ',' ',' ',' ','H','W','1',' ',' ',' ',' ','2',' ',' ',' ','1','.','1','0','0','0',' ',' ',' ','2','.','1','0','0','0',' ',' ',' ','3','.','1','0','0','0','\n'],
    [' ',' ',' ','1','.','0',' ','2','.','0',' ','3','.','0','\n']]
+
+def poscarBN : List Str :=
+  [['c','u','b','i','c',' ','B','N','\n'],
+   [' ','3','.','5','7','\n'],
+   [' ','0','.','0',' ','0','.','5',' ','0','.','5','\n'],
+   [' ','0','.','5',' ','0','.','0',' ','0','.','5','\n'],
+   [' ','0','.','5',' ','0','.','5',' ','0','.','0','\n'],
+   [' ','B',' ','N','\n'],
+   [' ','1',' ','1','\n'],
+   ['S','e','l','e','c','t','i','v','e','\n'],
+   ['C','a','r','t','e','s','i','a','n','\n'],
+   [' ','0','.','0','0',' ','0','.','0','0',' ','0','.','0','0',' ','T',' ','T',' ','F','\n'],
+   [' ','0','.','2','5',' ','0','.','2','5',' ','0','.','2','5',' ','F',' ','F',' ','F','\n']]
+
+def chgcarO : List Str :=
+  [['O',' ','a','t','o','m','\n'],
+   [' ','1','.','0','\n'],
+   [' ','1','0','.','0',' ','0','.','0',' ','0','.','0','\n'],
+   [' ','0','.','0',' ','1','0','.','0',' ','0','.','0','\n'],
+   [' ','0','.','0',' ','0','.','0',' ','1','0','.','0','\n'],
+   [' ','O','\n'],
+   [' ','1','\n'],
+   ['D','i','r','e','c','t','\n'],
+   [' ','0','.','0',' ','0','.','0',' ','0','.','0','\n'],
+   [' ','\n'],
+   [' ','2',' ','1',' ','2','\n'],
+   [' ','0','.','7','8','E','+','0','4',' ','0','.','7','6','E','+','0','4',' ','0','.','6','9','E','+','0','4','\n'],
+   [' ','0','.','5','7','E','+','0','4','\n'],
+   ['a','u','g','m','e','n','t','a','t','i','o','n','\n']]
 
 end Iodata.Rd
